@@ -287,3 +287,28 @@ pub fn reported_inscription(
       }),
   )
 }
+
+/// X1/X2 (wallet streams): run one complete `ord` command line in-process, exactly as `main`
+/// does (`Arguments::try_parse_from(args)?.run()`); `Arguments` is crate-private. `args[0]` is
+/// the program name. The error string is the top-level message followed by the `because:`
+/// chain `main` prints, joined with `" | "`. Panics propagate to the caller.
+pub fn run_command(
+  args: &[String],
+) -> std::result::Result<Option<Box<dyn subcommand::Output>>, String> {
+  let arguments = Arguments::try_parse_from(args).map_err(|err| format!("clap: {err}"))?;
+  arguments.run().map_err(|err| {
+    let mut message = err.to_string();
+    if let SnafuError::Anyhow { err } = &err {
+      for cause in err.chain().skip(1) {
+        message.push_str(" | ");
+        message.push_str(&cause.to_string());
+      }
+    } else {
+      for cause in snafu::ErrorCompat::iter_chain(&err).skip(1) {
+        message.push_str(" | ");
+        message.push_str(&cause.to_string());
+      }
+    }
+    message
+  })
+}
